@@ -7,6 +7,7 @@ import (
 	"github.com/hashicorp/hcl/v2"
 	"github.com/hashicorp/hcl/v2/hcldec"
 	"github.com/hashicorp/hcl/v2/hclsyntax"
+	hcljson "github.com/hashicorp/hcl/v2/json"
 	"github.com/zclconf/go-cty/cty"
 	"github.com/zclconf/go-cty/cty/function"
 	"pgregory.net/rapid"
@@ -95,4 +96,108 @@ func TestC19_Specs(t *testing.T) {
 			_ = ok
 			c.Done(d.HasErrors(), src+"|"+form+"|"+marked.GoString())
 		})
+}
+
+// TestC19_JSONNames: in the JSON syntax property names are templates too; a name computed
+// from a marked value that collides with another name, or that is not a valid name, is
+// reported without quoting it.
+func TestC19_JSONNames(t *testing.T) {
+	hx.Run(t, "C19", "JSONNames", 6000,
+		"directed family: JSON object expressions (top level, nested in arrays / objects, as attribute values of a JSON body) with 2..4 members whose names are templates over the secret string `s`, the secret number `n` (marked as a whole) and literals, duplicates forced in most cases (same template twice, two templates with the same result, a literal equal to... never the secret), values literals or references to the secrets; evaluated with the secrets in scope, with a null / unknown secret, and with a nil context; oracle (canary sweep): no Summary / Detail and no rendering by the text diagnostic writer contains a canary; non-trivial = an error diagnostic (duplicate attribute, null name) was produced; distinct by (text, scope variant)",
+		func(c *hx.Case) {
+			t := c.T
+			names := []string{"${s}", "x${s}", "${s}${s}", "${n}", "v${n}", "k", "${upper(s)}", "%{ if true }${s}%{ endif }", "${s2}"}
+			drawObj := func(depth int) string { return "" }
+			var obj func(depth int) string
+			obj = func(depth int) string {
+				k := rapid.IntRange(2, 4).Draw(t, "nmembers")
+				var members []string
+				var used []string
+				for i := 0; i < k; i++ {
+					name := rapid.SampledFrom(names).Draw(t, "name")
+					if i > 0 && rapid.IntRange(0, 2).Draw(t, "duplicate") > 0 {
+						name = used[rapid.IntRange(0, len(used)-1).Draw(t, "dup_of")]
+					}
+					used = append(used, name)
+					var val string
+					switch rapid.IntRange(0, 4).Draw(t, "val") {
+					case 0:
+						val = `1`
+					case 1:
+						val = `"${s}"`
+					case 2:
+						val = `[true, "${n}"]`
+					case 3:
+						if depth > 0 {
+							val = obj(depth - 1)
+						} else {
+							val = `null`
+						}
+					default:
+						val = `"lit"`
+					}
+					members = append(members, fmt.Sprintf("%q: %s", name, val))
+				}
+				return "{" + joinComma(members) + "}"
+			}
+			_ = drawObj
+			doc := obj(2)
+			switch rapid.IntRange(0, 2).Draw(t, "embed") {
+			case 1:
+				doc = "[" + doc + ", 1]"
+			case 2:
+				doc = `{"outer": ` + doc + `}`
+			}
+			c.Set("json", doc)
+			strs := gen.CanaryStrings
+			s := cty.StringVal(rapid.SampledFrom(strs).Draw(t, "s")).Mark(secretMark)
+			vars := map[string]cty.Value{"s": s, "s2": s, "n": cty.MustParseNumberVal(rapid.SampledFrom(gen.CanaryNumbers).Draw(t, "n")).Mark(secretMark)}
+			switch rapid.IntRange(0, 4).Draw(t, "variant") {
+			case 0:
+				vars["s2"] = cty.NullVal(cty.String).Mark(secretMark)
+			case 1:
+				vars["s2"] = cty.UnknownVal(cty.String).Mark(secretMark)
+			}
+			ctx := &hcl.EvalContext{Functions: ctyFuncs, Variables: vars}
+			files := map[string]*hcl.File{}
+			sawError := false
+			expr, diags := hcljson.ParseExpression([]byte(doc), "t.json")
+			if diags.HasErrors() {
+				c.Failf("harness-generator", "%s", diagStr(diags))
+			}
+			files["t.json"] = &hcl.File{Bytes: []byte(doc)}
+			for _, cx := range []*hcl.EvalContext{ctx, nil} {
+				var d hcl.Diagnostics
+				c.Guard("json Value", func() { _, d = expr.Value(cx) })
+				sawError = sawError || d.HasErrors()
+				sweepDiags(c, d, files, func() bool { return false })
+			}
+			if doc[0] == '{' {
+				f, fd := hcljson.Parse([]byte(doc), "t.json")
+				if !fd.HasErrors() {
+					var attrs hcl.Attributes
+					var ad hcl.Diagnostics
+					c.Guard("JustAttributes", func() { attrs, ad = f.Body.JustAttributes() })
+					sweepDiags(c, ad, files, func() bool { return false })
+					for _, a := range attrs {
+						var d hcl.Diagnostics
+						c.Guard("attribute Value", func() { _, d = a.Expr.Value(ctx) })
+						sawError = sawError || d.HasErrors()
+						sweepDiags(c, d, files, func() bool { return false })
+					}
+				}
+			}
+			c.Done(sawError, doc)
+		})
+}
+
+func joinComma(xs []string) string {
+	out := ""
+	for i, x := range xs {
+		if i > 0 {
+			out += ", "
+		}
+		out += x
+	}
+	return out
 }
